@@ -140,6 +140,25 @@ def score_block(case):
                     if not ok:
                         v.append(violation("score_depends_on_memory_layout", {"target": label, "layout": vname, "P": P, "contiguous": base, "got": got},
                                            target=label, dist=dist, mode=mode, K=K, n=n, via=vname))
+        # call history on one GEMINI object: the affinity returned by compute_affinity is evaluated, edited IN PLACE (same array object,
+        # new content) and evaluated again: the score is a function of the content it is given, not of what the object saw before
+        if A is not None and n_eval < 600:
+            for label, dist, mode, factory in targets[:4]:
+                g = factory()
+                Ag = g.compute_affinity(X, None if y is None else np.array(y, dtype=float, copy=True))
+                Ag = np.array(Ag, dtype=float, copy=True) if Ag is y else Ag
+                if not isinstance(Ag, np.ndarray) or Ag.dtype != float:
+                    continue
+                g(P.copy(), Ag)
+                Ag *= 4.0
+                Ag += Ag.T * 0.25
+                n_eval += 1
+                got = float(g(P.copy(), Ag))
+                exp2, slack2 = ref.ref_score_slack(P, np.array(Ag), dist, mode)
+                if abs(got - exp2) > ref.tol(dist, exp2, slack2, scale):
+                    v.append(violation("score_depends_on_what_the_object_saw_before", {"target": label, "P": P, "got": got, "expected": exp2,
+                                                                                     "history": "compute_affinity; evaluate; edit the array in place; evaluate"},
+                                       target=label, dist=dist, mode=mode, K=K, n=n, via="in_place_edit"))
         if nontrivial:
             nt += 1
         if len(outs) < 4:
